@@ -21,6 +21,7 @@ RULE = (
     "num/low/high, binWidth/origin, one centre, one threshold, Bag range, label key, collection size; both trees filled with 0..8 "
     "records each; 4 merges: a+b, b+a, a+=b, b+=a). distinct = digest(spec, mutation, streams); non-trivial = the four merges "
     "were attempted on a structurally different pair"
+    ' Mutations include wrapping a node in Select/Fraction/Index/Branch/Label or unwrapping a Select; every 20th case merges Stack.build / Fraction.build operands (built vs declared, one level more, mismatched members).'
 )
 ASSUMPTIONS = [
     "any exception type counts as rejection (the statement says 'raises an exception')",
